@@ -46,7 +46,7 @@ def two_naming_typedefs_only(m, text):
 @st.composite
 def strategy_(draw, tier):
     big = tier == "thorough"
-    m = draw(S.library(lang="any", max_types=10 if big else 7, max_funcs=6, symfeatures=True, tu_private=30, tdanon=25))
+    m = draw(S.library(lang="any", max_types=10 if big else 7, max_funcs=6, symfeatures=True, tu_private=30, tdanon=25, named_inline=20))
     cfg = draw(S.build_config(kinds=("shared", "shared", "rel")))
     m2, info = MU.neutral(draw, m)
     return {"model": m, "cfg": cfg, "mutant": m2, "info": info}
